@@ -124,6 +124,30 @@ def main(argv):
                 if not r["match_names"]:
                     failures.append(dict(obligation="F12.table#end_name_checked", witness=wit,
                                          observed="matched without match_names: an END name that differs from the opening name is not rejected by the block rule"))
+    # block protocol (proto:block_match, assumed by Base.__new__@rule): every match(reader) is one `return BlockBase.match(...)`
+    # (the contract proved for BlockBase.match then is the contract of the rule) or is itself under contract
+    UNDER_CONTRACT = {"Program", "Main_Program0", "Component_Part", "Outer_Shared_Do_Construct", "Inner_Shared_Do_Construct", "BlockBase"}
+    files = [os.path.join(SRC, "Fortran2003.py"), os.path.join(SRC, "utils.py"), os.path.join(SRC, "C99Preprocessor.py")] + sorted(
+        os.path.join(SRC, "Fortran2008", f) for f in os.listdir(os.path.join(SRC, "Fortran2008")) if f.endswith(".py"))
+    n_reader_rules = 0
+    for path in files:
+        tree = ast.parse(open(path, encoding="utf-8").read())
+        for cls in [n for n in ast.walk(tree) if isinstance(n, ast.ClassDef)]:
+            for fn in [n for n in cls.body if isinstance(n, ast.FunctionDef) and n.name == "match"]:
+                if "reader" not in [a.arg for a in fn.args.args]:
+                    continue
+                n_reader_rules += 1
+                body = [b for b in fn.body if not (isinstance(b, ast.Expr) and isinstance(b.value, ast.Constant))]
+                if len(body) == 2 and isinstance(body[0], ast.Assign) and isinstance(body[1], ast.Return) and isinstance(body[1].value, ast.Name) \
+                        and len(body[0].targets) == 1 and isinstance(body[0].targets[0], ast.Name) and body[0].targets[0].id == body[1].value.id:
+                    body = [ast.Return(value=body[0].value)]           # result = BlockBase.match(...); return result
+                delegates = len(body) == 1 and isinstance(body[0], ast.Return) and isinstance(body[0].value, ast.Call) \
+                    and ast.unparse(body[0].value.func) == "BlockBase.match"
+                if not delegates and cls.name not in UNDER_CONTRACT:
+                    failures.append(dict(obligation="F12.table#reader_rule_delegates_or_is_under_contract", witness=dict(file=os.path.relpath(path, SRC), cls=cls.name),
+                                         observed="match(reader) with %d statements, not a single call of BlockBase.match" % len(body)))
+    if n_reader_rules < 30:
+        failures.append(dict(obligation="F12.table#reader_rule_delegates_or_is_under_contract", witness=dict(), observed="only %d match(reader) found" % n_reader_rules))
     # scoping classes
     scoping = set()
     for mod in (Fortran2003, Fortran2008):
